@@ -83,6 +83,11 @@ func (fr *Frame) knownPure(s *State, f *types.Func, recv *Val, args []*Val) ([]*
 		}
 		v := fr.freshVal(s, sig.Results().At(0).Type(), "err")
 		s.assume(not(eq(v.S, "0")))
+		// a newly created error value is different from every package-level sentinel (those have errid > 0)
+		if _, declared := fr.eng.syms.syms["errid"]; !declared {
+			fr.eng.syms.add("errid", "(declare-fun errid (Int) Int)")
+		}
+		s.assume(fmt.Sprintf("(< (errid %s) 0)", v.S))
 		return []*Val{v}, true
 	case "fmt.Sprintf", "fmt.Sprint", "fmt.Sprintln", "strings.ToLower", "strings.ToUpper", "strconv.Itoa", "strconv.FormatUint", "strconv.FormatInt",
 		"strings.TrimSpace", "strconv.Quote":
